@@ -592,6 +592,13 @@ def insert_loop_contracts(body, loops, st):
             if o >= len(found):
                 raise ExtractError('loop ordinal %d not found (function has %d loops)' % (o, len(found)))
             chosen[o] = text
+        elif isinstance(o, tuple) and o[0] == 'all':
+            # ('all', regex): every loop whose header matches gets the contract (copies of one loop in several branches)
+            hits = [i for i, (kw, at, hdr) in enumerate(found3) if re.search(o[1], hdr, re.S)]
+            for h_ in hits:
+                chosen[h_] = text
+            if not hits:
+                bump(st, 'loop-regex-not-found')
         else:
             hits = [i for i, (kw, at, hdr) in enumerate(found3) if re.search(o, hdr, re.S)]
             if len(hits) > 1:
